@@ -17986,6 +17986,9 @@ int cg_nintegrals(int *nintegrals)
     } else if (strcmp(posit->label,"Zone_t")==0) {
         cgns_zone *zone = (cgns_zone *)posit->posit;
         (*nintegrals) = zone->nintegrals;
+    } else if (strcmp(posit->label,"ParticleZone_t")==0) {
+        cgns_pzone *pzone = (cgns_pzone *)posit->posit;
+        (*nintegrals) = pzone->nintegrals;
     } else {
         cgi_error("IntegralData_t node not supported under '%s' type node",posit->label);
         (*nintegrals) = 0;
